@@ -75,10 +75,16 @@ def errorJson {C} (asRef : C → Bytes) (e : ErrorResp C) : Bytes := print (serE
 
 /-! ## Text level -/
 
-/-- the HTTP path (`check_response_status`): one value from the front of the body, the rest is ignored (F5) -/
-def decodeErrorBody {C} (fromStr : Bytes → C) (body : Bytes) : Option (ErrorResp C) :=
+/-- the HTTP path as on the PINNED tree (before fix 896fd71): the rest of the body was ignored (F5) -/
+def decodeErrorBodyPinned {C} (fromStr : Bytes → C) (body : Bytes) : Option (ErrorResp C) :=
   match parseStructPrefix errShape.known body with
   | some (j, _) => decodeError fromStr j
+  | none => none
+
+/-- the HTTP path (`check_response_status` → `deserialize_json`): one JSON document, only whitespace may follow -/
+def decodeErrorBody {C} (fromStr : Bytes → C) (body : Bytes) : Option (ErrorResp C) :=
+  match parseStructPrefix errShape.known body with
+  | some (j, rest) => if onlyWs rest then decodeError fromStr j else none
   | none => none
 
 /-- `serde_json::from_slice` / `from_str`: the rest must be whitespace -/
